@@ -32,7 +32,7 @@ def run_parallel(rows, name, nproc, cells, extra=None):
     common.build_harness("release", BIN)
 
     def one(fp):
-        return common.vh(["run", "--in", fp, "--cells", cells] + (extra or []), binname=BIN, timeout=3000,
+        return common.vh(["run", "--in", fp, "--cells", cells] + (extra or []), binname=BIN, timeout=7000,
                          env={"RAYON_NUM_THREADS": "3"})
 
     with ThreadPoolExecutor(max_workers=nproc) as ex:
@@ -106,7 +106,7 @@ def run(chk, tier):
     psim = [p for p in psim if 3 <= len(p["prog"]["instrs"])]
     rnd.shuffle(p1)
     rnd.shuffle(psim)
-    n1, ns = (400, 400) if thorough else (35, 35)
+    n1, ns = (120, 120) if thorough else (35, 35)
     progs = sorted(p1[:n1] + psim[:ns], key=lambda p: json.dumps(p["prog"], sort_keys=True))
     cfgs, classes = c01.configs(chk)
     strong = [c for c in cfgs + c01.EXTRA_CFGS if c["q"] * c["rate"] + c["pow"] >= 50 and not c["zk"]]
@@ -119,7 +119,7 @@ def run(chk, tier):
         cfg = std if u < 0.4 else (strong_zk[rnd.randrange(len(strong_zk))] if u > 0.95 else strong[rnd.randrange(len(strong))])
         rows.append({"id": "m%d" % i, "prog": p["prog"], "cfg": cfg, "inputs": classes[rnd.randrange(len(classes))],
                      "kinds": kinds, "strategies": strategies})
-    res = run_parallel(rows, "c02_run", 6, 28 if thorough else 14)
+    res = run_parallel(rows, "c02_run", 6, 20 if thorough else 14)
     byid = {s["id"]: s for s in rows}
     stats = {}
     distinct = set()
